@@ -28,6 +28,9 @@ LTYPES = {
     "tuple[PyTree[Q],Q]": ["tuple", [["pytree", Q], Q]],
     "PyTree[Q,'S']": ["pytree", Q, "S"],
     "PyTree[Q,'T']": ["pytree", Q, "T"],  # the SAME structure name at both nesting levels
+    # the first alternative binds its '?n' and then FAILS on the fixed axis (size 2 -> shape (2,4)),
+    # or matches (size 3 -> shape (3,3)): what a failed alternative bound must not survive
+    "Union[?n 3,?m 4]": ["union", [["arr", "?n 3"], ["arr", "?m 4"]]],
     "Optional[Q]": ["opt", Q],  # None is then a leaf of its own: it occupies a leaf position
     "Union[None,int,*?v]": ["union", [["none"], ["int"], ["arr", "*?v"]]],
     # deeper nestings: structure-less PyTrees between / around the structured ones
@@ -59,6 +62,8 @@ def leaf_for(lname, sizes):
     A = lambda s: ["duck", [s]]
     if sizes[0] == 0:
         return ["none"]  # only generated for leaf types that admit None
+    if lname == "Union[?n 3,?m 4]":
+        return ["duck", [2, 4]] if sizes[0] == 2 else ["duck", [3, 3]]
     if lname == "Union[None,int,*?v]":
         return ["duck", [sizes[0], 2]]
     if lname == "Float[Float[?n],m]":
